@@ -260,6 +260,92 @@ async fn run_sequence(ty: Ty, seq: &[u8]) -> Vec<(String, String)> {
     viol
 }
 
+// ------------------------------------------------------------------ accept() fails once (descriptor exhaustion)
+
+/// Child process `zv c18-emfile`: with the descriptor limit lowered, every descriptor is used up at the moment a client
+/// connects to a bound endpoint, so that endpoint's accept() fails (EMFILE) at least once; the descriptors are freed
+/// again. The endpoint was never unbound: it must still be in binds(), a fresh connection to it must be accepted and
+/// exchange a message, and the socket's other endpoint must be unaffected.
+pub fn child_emfile() -> i32 {
+    unsafe {
+        let lim = libc::rlimit { rlim_cur: 256, rlim_max: 256 };
+        if libc::setrlimit(libc::RLIMIT_NOFILE, &lim) != 0 {
+            println!("{}", json!({"finding": ["machinery/setrlimit", "cannot lower RLIMIT_NOFILE"]}));
+            return 0;
+        }
+    }
+    let mut cases = 0u64;
+    for ty in [Ty::Rep, Ty::Pull] {
+        for ipc in [false, true] {
+            cases += 1;
+            let viol = e4::block_on_deadline(2, e4::CASE_DEADLINE, move || async move { emfile_case(ty, ipc).await }).unwrap_or_else(|| vec![("runtime-hung".to_string(), format!("{} ({}): the case did not come back within {} s", ty.name(), if ipc { "ipc" } else { "tcp" }, e4::CASE_DEADLINE.as_secs()))]);
+            for (c, m) in viol {
+                println!("{}", json!({"finding": [c, m], "type": ty.name(), "ipc": ipc}));
+            }
+        }
+    }
+    println!("{}", json!({"cases": cases}));
+    e4::cleanup_ipc_dir();
+    0
+}
+
+async fn emfile_case(ty: Ty, ipc: bool) -> Vec<(String, String)> {
+    let mut viol: Vec<(String, String)> = Vec::new();
+    let what = format!("{} socket with two bound endpoints ({} and tcp); accept() on the first fails for lack of descriptors while a client connects, then descriptors are free again", ty.name(), if ipc { "ipc" } else { "tcp" });
+    let mut sock = AnySocket::new_unmonitored(ty, None);
+    let mut monitor = sock.monitor();
+    let spec = if ipc { format!("ipc://{}", e4::ipc_path().display()) } else { "tcp://127.0.0.1:0".to_string() };
+    let (ep1, ep2) = match (sock.bind(&spec).await, sock.bind("tcp://127.0.0.1:0").await) {
+        (Ok(a), Ok(b)) => (a, b),
+        (a, b) => return vec![("machinery/bind-failed".into(), format!("{}: {:?} {:?}", what, a.err().map(|e| e.to_string()), b.err().map(|e| e.to_string())))],
+    };
+    let mut hog: Vec<std::fs::File> = Vec::new();
+    while let Ok(f) = std::fs::File::open("/dev/null") {
+        hog.push(f);
+        if hog.len() > 4096 {
+            break;
+        }
+    }
+    hog.pop();
+    let client = RawStream::connect(&ep1).await;
+    let t0 = std::time::Instant::now();
+    let mut injected = false;
+    while t0.elapsed() < std::time::Duration::from_secs(2) && !injected {
+        #[allow(deprecated)]
+        while let Ok(Some(ev)) = monitor.try_next() {
+            if matches!(ev, zeromq::SocketEvent::AcceptFailed(_)) {
+                injected = true;
+            }
+        }
+        tokio::time::sleep(std::time::Duration::from_millis(2)).await;
+    }
+    drop(hog);
+    drop(client);
+    if !injected {
+        return vec![("machinery/accept-did-not-fail".into(), format!("{}: no AcceptFailed event within 2 s", what))];
+    }
+    let mut got = sock.bound();
+    got.sort_by_key(|e| e.to_string());
+    let mut want = vec![ep1.clone(), ep2.clone()];
+    want.sort_by_key(|e| e.to_string());
+    if got != want {
+        viol.push(("bind-set/changed-by-a-failed-accept".into(), format!("{}: binds() = {:?}", what, got.iter().map(|e| e.to_string()).collect::<Vec<_>>())));
+    }
+    for (name, ep) in [("the endpoint whose accept failed", &ep1), ("the other endpoint", &ep2)] {
+        match connect_in(ty, &ep.to_string()).await {
+            Ok(s) => {
+                let mut c = Client { s, via: ep.clone(), n: 0 };
+                if let Err(e) = exchange(ty, &mut sock, &mut c, "after-emfile").await {
+                    viol.push(("bound-endpoint/exchange-failed".into(), format!("{}: exchange over a fresh connection to {} ({}) failed: {}", what, name, ep, e)));
+                }
+            }
+            Err(e) => viol.push(("bound-endpoint/not-connectable".into(), format!("{}: {} ({}) was never unbound but is no longer connectable: {}", what, name, ep, e))),
+        }
+    }
+    let _ = sock.close().await;
+    viol
+}
+
 fn sequences(max_len: usize, max_len_with_failures: usize) -> Vec<Vec<u8>> {
     let mut all: Vec<Vec<u8>> = Vec::new();
     let mut level: Vec<Vec<u8>> = vec![vec![]];
@@ -356,6 +442,21 @@ pub fn run(tier: Tier, replay: Option<String>) -> i32 {
     if let Some(path) = replay {
         let v: Value = serde_json::from_str(&std::fs::read_to_string(&path).expect("read")).expect("json");
         let r = &v["replay"];
+        if r["engine"] == "E4-emfile" {
+            // the whole (small) family is re-run in its child process
+            return match e4::child_output(&["c18-emfile"], std::time::Duration::from_secs(900)) {
+                Ok((_, out)) => {
+                    let bad = out.lines().filter(|l| l.contains("\"finding\"") && !l.contains("machinery/")).count();
+                    print!("{}", out);
+                    println!("{}", if bad == 0 { "replay: holds" } else { "replay: VIOLATION (see the findings above)" });
+                    if bad == 0 { 0 } else { 1 }
+                }
+                Err(e) => {
+                    eprintln!("MACHINERY: {}", e);
+                    2
+                }
+            };
+        }
         let ty = Ty::from_name(r["type"].as_str().unwrap()).unwrap();
         let seq: Vec<u8> = r["ops"].as_array().unwrap().iter().map(|o| OPS.iter().position(|x| Some(*x) == o.as_str()).unwrap() as u8).collect();
         let rt = e4::runtime(2);
@@ -417,6 +518,32 @@ pub fn run(tier: Tier, replay: Option<String>) -> i32 {
     if done + skipped != cases.len() as u64 {
         ck.machinery_error(format!("{} of {} sequences reported", done + skipped, cases.len()));
     }
+    // accept() failing once on a bound endpoint (a process of its own: the descriptor limit is process-wide)
+    let mut emfile_cases = 0u64;
+    match e4::child_output(&["c18-emfile"], std::time::Duration::from_secs(900)) {
+        Ok((true, stdout)) => {
+            for l in stdout.lines() {
+                let Ok(v) = serde_json::from_str::<Value>(l) else { continue };
+                if let Some(n) = v["cases"].as_u64() {
+                    emfile_cases = n;
+                    continue;
+                }
+                if let Some(f) = v["finding"].as_array() {
+                    let (c, m) = (f[0].as_str().unwrap_or("?"), f[1].as_str().unwrap_or(""));
+                    if c == "machinery/accept-did-not-fail" {
+                        ck.cov_add("accept_failure_cases_not_injected", 1);
+                    } else if c.starts_with("machinery/") {
+                        ck.machinery_error(m.to_string());
+                    } else {
+                        ck.finding(c.to_string(), m.to_string(), json!({"engine":"E4-emfile","type":v["type"],"ipc":v["ipc"]}));
+                    }
+                }
+            }
+        }
+        Ok((false, _)) => ck.machinery_error("c18-emfile child exited abnormally".to_string()),
+        Err(e) => ck.machinery_error(format!("c18-emfile child: {}", e)),
+    }
+    ck.cov("accept_failure_cases", emfile_cases);
     ck.cov("sequences_skipped_after_violations_or_budget", skipped);
     ck.cov("wall_budget_exhausted", budget_hit);
     ck.cov("evaluations", done);
@@ -424,7 +551,7 @@ pub fn run(tier: Tier, replay: Option<String>) -> i32 {
     ck.cov("sequences_by_length", json!(lens.iter().map(|(k, v)| (k.to_string(), *v)).collect::<std::collections::BTreeMap<_, _>>()));
     ck.cov("isolated_network_namespaces", isolated);
     ck.cov("exhaustive", skipped == 0);
-    ck.cov("rule", format!("every sequence of length <= {} over the 11 operations {:?} (operations that need a bound endpoint or an established client are omitted where they would be no-ops; the last operation - 150 clients that close in mid-handshake one after the other, then a well-behaved one - at most once and in sequences of length <= {}) on a real REP and a real PULL socket on the real tokio runtime: {} sequences; distinct by construction; non-trivial = contains at least one bind. After EVERY operation: return value as the reference model says (wildcard port resolved non-zero, duplicate bind fails and changes nothing, unbind of anything not bound - an endpoint bound earlier, a far miss, and near misses of every bound endpoint (same port under another host name or address, same ipc path with a suffix) - fails with NoSuchBind and changes nothing), binds() equals the model's set, every bound endpoint accepts a fresh connection by its text form and completes a message exchange, every endpoint not bound (any more) refuses at once, connections established earlier keep working across later unbinds. Each worker process runs in its own network namespace so that no other process can take a port this check expects to be free.", tier.pick(4, 5), OPS, tier.pick(3, 4), cases.len()));
+    ck.cov("rule", format!("every sequence of length <= {} over the 11 operations {:?} (operations that need a bound endpoint or an established client are omitted where they would be no-ops; the last operation - 150 clients that close in mid-handshake one after the other, then a well-behaved one - at most once and in sequences of length <= {}) on a real REP and a real PULL socket on the real tokio runtime: {} sequences; distinct by construction; non-trivial = contains at least one bind. After EVERY operation: return value as the reference model says (wildcard port resolved non-zero, duplicate bind fails and changes nothing, unbind of anything not bound - an endpoint bound earlier, a far miss, and near misses of every bound endpoint (same port under another host name or address, same ipc path with a suffix) - fails with NoSuchBind and changes nothing), binds() equals the model's set, every bound endpoint accepts a fresh connection by its text form and completes a message exchange, every endpoint not bound (any more) refuses at once, connections established earlier keep working across later unbinds. Additionally, in a child process with a lowered descriptor limit: REP and PULL with two bound endpoints, accept() on one of them failing once for lack of descriptors - the endpoint stays in binds(), accepts a fresh connection afterwards and exchanges a message, the other endpoint is unaffected. Each worker process runs in its own network namespace so that no other process can take a port this check expects to be free.", tier.pick(4, 5), OPS, tier.pick(3, 4), cases.len()));
     ck.sample(json!({"type":"REP","ops":["bind-tcp4","connect-in-each","unbind-oldest","exchange-established"]}));
     ck.assume("OS schedules are not enumerated; conditions the statement ties to a return are tested immediately after the return");
     ck.conclude()
